@@ -298,6 +298,18 @@ class Unifier:
                     return ("fixed",) if shaped else ("scalar",)
             if v.id in self.writer_params:
                 return ("fixed",) if shaped else ("scalar",)
+            import builtins as _b
+            mod_names = {n.id for st_ in self.u.writer.module.tree.body if not isinstance(st_, (ast.FunctionDef, ast.ClassDef)) for n in ast.walk(st_)
+                         if isinstance(n, ast.Name) and isinstance(n.ctx, ast.Store)} | \
+                {n.id for n in ast.walk(self.u.writer.node) if isinstance(n, ast.Name) and isinstance(n.ctx, ast.Store)} | \
+                {a.asname or a.name.split(".")[0] for n in ast.walk(self.u.writer.module.tree) if isinstance(n, (ast.Import, ast.ImportFrom)) for a in n.names} | \
+                {n.name for n in self.u.writer.module.tree.body if isinstance(n, (ast.FunctionDef, ast.ClassDef))} | \
+                {a.arg for n in ast.walk(self.u.writer.node) if isinstance(n, ast.arguments) for a in n.args + n.kwonlyargs}
+            if v.id not in mod_names and not hasattr(_b, v.id):
+                from .report import DefiniteViolation
+                raise DefiniteViolation("codec-call-shape", self.u.writer.module.path.name, self.u.writer.qualname, v,
+                                        f"the encoder writes `{v.id}`, a name that nothing in {self.u.writer.qualname} or its module binds: encoding raises NameError",
+                                        construct=f"{self.u.writer.qualname} unbound name {v.id}", props=("C01", "C02", "C06"))
             raise AnalysisError(f"{self.u.name}: free name `{v.id}` written to the stream")
         if isinstance(v, ast.IfExp):
             if isinstance(v.orelse, (ast.List, ast.Tuple)) and not v.orelse.elts:
@@ -314,7 +326,7 @@ class Unifier:
             if kind == "seq":
                 return ("seq", ast.Call(func=N("len"), args=[v], keywords=[]))
             if kind == "fixed":
-                if info["shape"] is not None and tuple(info["shape"]) != tuple(dt.shape):
+                if info is not None and info["shape"] is not None and tuple(info["shape"]) != tuple(dt.shape):
                     return ("seq", C(_prod(info["shape"]) // max(1, dt.nscalars)) if _prod(info["shape"]) % max(1, dt.nscalars) == 0 else C(-1))
                 return ("fixed",)
             if kind == "frames":
